@@ -57,33 +57,47 @@ Notation mkg := (mk_staircase_gen RN steps plo phi).
 Lemma bound_steps_id (l : list R) : length l = steps -> bound_steps_check RN steps plo phi l = l.
 Proof. intros H. unfold bound_steps_check. cbn [T RN]. rewrite H, Nat.ltb_irrefl. reflexivity. Qed.
 
+Lemma crosses_false_ple (l r : list R) : length l = length r -> (crosses RN l r = false <-> ple l r).
+Proof.
+  unfold crosses. revert r; induction l as [|a l IH]; intros [|b r] Hl; cbn in Hl; try lia; cbn [combine existsb fst snd].
+  - split; [constructor|reflexivity].
+  - rewrite orb_false_iff, IH by lia. cbn [nltb RN]. split.
+    + intros [H1 H2]. constructor; auto. unfold Rltb in H1. destruct (Rlt_dec b a); [discriminate|lra].
+    + intros H; inversion H; subst. split; auto. unfold Rltb. destruct (Rlt_dec b a); [lra|reflexivity].
+Qed.
 Lemma mk_plain b (l r : list R) : length l = steps -> length r = steps -> Rsorted l -> Rsorted r ->
+  ple (fst (left_right_switch RN b l r)) (snd (left_right_switch RN b l r)) ->
   mkg b l r = Ok (fst (left_right_switch RN b l r), snd (left_right_switch RN b l r)).
 Proof.
-  intros Hl Hr Sl Sr. unfold mk_staircase_gen. destruct (left_right_switch RN b l r) as [l' r'] eqn:E. cbn [fst snd].
+  intros Hl Hr Sl Sr. unfold mk_staircase_gen. destruct (left_right_switch RN b l r) as [l' r'] eqn:E. cbn [fst snd]. intros Hle.
   assert (H : (l' = l /\ r' = r) \/ (l' = r /\ r' = l)).
   { unfold left_right_switch in E. destruct (if b then _ else _); inversion E; auto. }
   assert (Hl' : length l' = steps) by (destruct H as [[-> ->]|[-> ->]]; auto).
   assert (Hr' : length r' = steps) by (destruct H as [[-> ->]|[-> ->]]; auto).
   rewrite !bound_steps_id by assumption. cbn [T RN] in *. rewrite Hl', Hr', Nat.eqb_refl. cbn [negb].
+  rewrite (proj2 (crosses_false_ple l' r' ltac:(lia)) Hle).
   rewrite !is_increasing_sorted; [reflexivity| |]; destruct H as [[-> ->]|[-> ->]]; auto.
 Qed.
 (* bounds given in the right order: the (whole-array or lexicographic) switch cannot change them *)
 Lemma mk_ordered b (l r : list R) : length l = steps -> length r = steps -> Rsorted l -> Rsorted r -> ple l r ->
   mkg b l r = Ok (l, r).
 Proof.
-  intros Hl Hr Sl Sr Hle. rewrite mk_plain by assumption. unfold left_right_switch.
-  destruct b.
-  - destruct (lex_ge RN l r) eqn:E; [|reflexivity]. rewrite (lex_ge_true_le l r Hle E). reflexivity.
-  - destruct (all_ge RN l r) eqn:E; [|reflexivity].
-    assert (l = r) by (apply ple_antisym; auto; apply all_ge_true_ple; auto; lia). subst; reflexivity.
+  intros Hl Hr Sl Sr Hle.
+  assert (E : left_right_switch RN b l r = (l, r)).
+  { unfold left_right_switch. destruct b.
+    - destruct (lex_ge RN l r) eqn:E; [|reflexivity]. rewrite (lex_ge_true_le l r Hle E). reflexivity.
+    - destruct (all_ge RN l r) eqn:E; [|reflexivity].
+      assert (l = r) by (apply ple_antisym; auto; apply all_ge_true_ple; auto; lia). subst; reflexivity. }
+  rewrite mk_plain by (try assumption; rewrite E; exact Hle). rewrite E. reflexivity.
 Qed.
 (* bounds given in the inverted order everywhere: the switch fires *)
 Lemma mk_reversed b (l r : list R) : length l = steps -> length r = steps -> Rsorted l -> Rsorted r -> ple r l ->
   mkg b l r = Ok (r, l).
 Proof.
-  intros Hl Hr Sl Sr Hle. rewrite mk_plain by assumption. unfold left_right_switch.
-  destruct b; [rewrite (lex_ge_ple l r Hle)|rewrite (all_ge_ple l r Hle)]; reflexivity.
+  intros Hl Hr Sl Sr Hle.
+  assert (E : left_right_switch RN b l r = (r, l)).
+  { unfold left_right_switch. destruct b; [rewrite (lex_ge_ple l r Hle)|rewrite (all_ge_ple l r Hle)]; reflexivity. }
+  rewrite mk_plain by (try assumption; rewrite E; exact Hle). rewrite E. reflexivity.
 Qed.
 End Mk.
 
